@@ -984,6 +984,11 @@ def grid(tier):
             ns = [3, 4, 5, 10, 20, 50] if pr in ("all", "single_feat", "single_feat_otw", None, "ovrpbltw", "vrptw") else [4, 5, 20]
         for n in ns:
             add("mtvrp", dict(num_loc=n, **base), ([[2]] if pr not in ("all", None) else [1] if n >= 20 else None) if q else None)
+    # vehicle speed (documented generator argument; travel time = distance / speed), with time windows and without
+    for sp, mt in ([(0.5, 9.2), (2.0, 4.6), (4.0, 4.6)] if q else [(0.5, 9.2), (0.75, 4.6), (2.0, 4.6), (4.0, 4.6)]):
+        for pr in ("vrptw", "ovrpbltw") if q else ("vrptw", "ovrpbltw", "vrpltw", "all"):
+            for n in (4,) if q else (4, 10):
+                add("mtvrp", dict(num_loc=n, variant_preset=pr, speed=sp, max_time=mt), [[2]])
     # --- fjsp
     shapes = [(2, 2, 1, 2, 1, None), (2, 2, 2, 2, 1, 1), (3, 2, 1, 2, 1, 2), (3, 3, 2, 2, 2, 3), (5, 3, 2, 3, 1, None), (10, 5, 4, 6, 1, None), (10, 5, 4, 6, 2, 3)]
     if q:
@@ -1013,6 +1018,9 @@ def grid(tier):
     for n, k in ([(3, 1), (5, 2), (20, 5), (100, 10)] if q else [(3, 1), (4, 2), (5, 2), (5, 4), (10, 3), (20, 5), (50, 10), (100, 10)]):
         add("flp", dict(num_loc=n, to_choose=k))
     add("flp", dict(num_loc=5, to_choose=2, min_loc=-1.0, max_loc=1.0), [[2]])
+    # documented unbounded / clustered location samplers
+    for dk in [dict(loc_distribution="normal", loc_mean=0.5, loc_std=0.5), dict(loc_distribution="gaussian_mixture", num_modes=2, cdist=3), dict(loc_distribution="cluster", n_cluster=2)]:
+        add("flp", dict(num_loc=5, to_choose=2, **dk), [[2]])
     # --- dpp / mdpp (synthetic chip data of the given grid size)
     for size, dec, klo, khi in ([(3, 2, 1, 3), (4, 3, 1, 5)] if q else [(3, 2, 1, 3), (3, 3, 1, 2), (4, 3, 1, 5), (5, 4, 2, 8)]):
         add("dpp", dict(size=size, max_decaps=dec, num_keepout_min=klo, num_keepout_max=khi))
